@@ -205,7 +205,8 @@ def run(prop, tier, seed):
     skels = tiny + medium + (more if tier == 'thorough' else [])
     rep.bounds = dict(histories='skeletons tiny=%s medium=%s more=%s (the first group with payloads 0 .. 4 KiB, the others 0 .. 32 MiB; sizes symbolic); one crash per history, placed right before any I/O event (data write, flush, file creation steps, index persist steps, io_uring submission) incl. the events of the initial open' % (tiny, medium, more if tier == 'thorough' else []),
                       crash_model='process crash: completed events persist, the interrupted one and everything after it do not happen; an io_uring batch submission is one event on the FD path (kernel-side partial completion is outside the claim), the sequential path has one event per entry',
-                      after_crash='fresh process, real recovery, every topic drained with read_next')
+                      after_crash='fresh process, real recovery, every topic drained with read_next (or, for /b histories, consuming batch reads)',
+                      batch_size='2-3 entries per batch (4 in the thorough tier); one WAL file per history (no file rollover)')
     if prop in POWER:
         rep.bounds['crash_model'] = ('power loss right before any I/O event under FsyncSchedule::SyncEach: a data write survives if its file was synced (sync_all / msync) after it or the handle is O_SYNC; '
                                      'a file creation or rename survives if its directory was synced after it; every other write / creation is kept or dropped independently (solver-visible decisions); of the renames of the '
